@@ -24,11 +24,27 @@ def dump(prog, relpath, name, extra_includes=()):
     if prog.overlay:
         incs += ["-I", os.path.join(prog.overlay, "src"), "-I", os.path.join(prog.overlay, os.path.dirname(relpath))]
     incs += ["-I", os.path.join(prog.root, "src"), "-I", os.path.join(prog.root, os.path.dirname(relpath))]
+    tmpdir = None
+    if prog.overlay:
+        # `#include "x.h"` looks in the including file's directory first; compile a private copy of the
+        # translation unit so that overlay headers (searched via -I, overlay first) win over /repo's
+        import shutil
+        import tempfile
+
+        tmpdir = tempfile.mkdtemp(prefix="verif_clang_")
+        private = os.path.join(tmpdir, os.path.basename(relpath))
+        shutil.copyfile(path, private)
+        path = private
     cmd = ["clang++"] + FLAGS + incs + ["-Xclang", "-ast-dump=json", "-Xclang", "-ast-dump-filter=%s" % name, path]
     try:
         r = subprocess.run(cmd, stdout=subprocess.PIPE, stderr=subprocess.PIPE, timeout=120)
     except (OSError, subprocess.TimeoutExpired) as e:
         raise AnalysisError("clang++ failed on %s: %s" % (relpath, e))
+    finally:
+        if tmpdir:
+            import shutil
+
+            shutil.rmtree(tmpdir, ignore_errors=True)
     if r.returncode != 0:
         raise AnalysisError("clang++ cannot parse %s: %s" % (relpath, r.stderr.decode(errors="replace")[:400]))
     txt = r.stdout.decode(errors="replace")
